@@ -21,7 +21,7 @@ logging.disable(logging.CRITICAL)
 from harness.common import VERIF, run_driver
 
 from insights.core import dr
-from insights.core.context import ExecutionContext, SerializedArchiveContext
+from insights.core.context import ExecutionContext, HostContext, JBossContext, SerializedArchiveContext
 from insights.core.exceptions import ContentException, SkipComponent
 from insights.core.plugins import datasource, is_datasource
 from insights.core.spec_factory import RegistryPoint, SpecDescriptor, SpecSet
@@ -64,11 +64,23 @@ class SWorld(object):
         self.calls = []
         self.comps = {}
         self.ctxs = []
+        # execution contexts form a class hierarchy: ctx_parent[i] = -1 (extends ExecutionContext) or an earlier
+        # context it derives from; "ctx_special": serialized (ctx 0 is the shipped SerializedArchiveContext), base
+        # (ctx 0 is ExecutionContext itself), shipped (ctx 0 / ctx 1 are the shipped HostContext / JBossContext(HostContext))
+        cpar = case.get("ctx_parent") or [-1] * self.nctx
+        special = case.get("ctx_special") or ("serialized" if case.get("serialized") else None)
         for i in range(self.nctx):
-            if i == 0 and case.get("serialized"):
+            if i == 0 and special == "serialized":
                 self.ctxs.append(SerializedArchiveContext)
+            elif i == 0 and special == "base":
+                self.ctxs.append(ExecutionContext)
+            elif i == 0 and special == "shipped":
+                self.ctxs.append(HostContext)
+            elif i == 1 and special == "shipped":
+                self.ctxs.append(JBossContext)
             else:
-                self.ctxs.append(type("Ctx%d_%s" % (i, tag), (ExecutionContext,), {}))
+                base = ExecutionContext if cpar[i] < 0 else self.ctxs[cpar[i]]
+                self.ctxs.append(type("Ctx%d_%s" % (i, tag), (base,), {}))
             self.comps[i] = self.ctxs[i]
         self.root = type("Root_" + tag, (SpecSet,), dict(("p%d" % k, RegistryPoint()) for k in range(self.npoints)))
         self.points = []
@@ -423,11 +435,41 @@ def gen_case(rng, quick, allow_findings=True):
     nclasses = rng.randint(3, 7) if hier else rng.randint(1, 5)
     if hier and rng.random() < 0.5:
         nctx, npoints = 2, rng.randint(1, 2)
+    # execution contexts: 55% of the histories have contexts DERIVED from other contexts (two- and three-level
+    # chains, siblings under one parent); a derived context is a key of its own in the broker
+    ctx_parent = [-1] * nctx
+    ctx_special = "serialized" if rng.random() < 0.1 else None
+    if rng.random() < 0.55:
+        if rng.random() < 0.5:
+            nctx = max(nctx, 3)
+            ctx_parent = [-1] * nctx
+        shape = rng.choice(["chain", "siblings", "random", "random"])
+        for i in range(1, nctx):
+            if shape == "chain":
+                ctx_parent[i] = i - 1 if i <= 2 else rng.choice([-1, i - 1])
+            elif shape == "siblings":
+                ctx_parent[i] = 0 if i <= 2 else rng.choice([-1, 0, i - 1])
+            else:
+                ctx_parent[i] = rng.choice([-1] + list(range(i)))
+        r = rng.random()
+        if r < 0.15:
+            ctx_special, ctx_parent[1] = "shipped", 0      # HostContext / JBossContext(HostContext)
+        elif r < 0.25:
+            ctx_special = "base"                           # ExecutionContext itself used as a context
+        elif ctx_special == "serialized":
+            ctx_special = None
     next_id = [nctx + npoints]
 
     def nid():
         next_id[0] += 1
         return next_id[0] - 1
+
+    def related_pair():
+        """two contexts, preferably a context and one derived from it"""
+        rel = [(i, ctx_parent[i]) for i in range(nctx) if ctx_parent[i] >= 0]
+        if rel and rng.random() < 0.6:
+            return list(rng.choice(rel))
+        return rng.sample(range(nctx), 2)
     classes = []
     registry = {-1: set(range(npoints))}      # names each class declares as registry points
     wired_names = set()
@@ -476,17 +518,18 @@ def gen_case(rng, quick, allow_findings=True):
                 e["ctxs"] = [rng.randrange(nctx)]
             elif r < 0.75:
                 e["kind"] = "group"
-                e["ctxs"] = rng.sample(range(nctx), 2)
+                e["ctxs"] = related_pair()
             else:
                 e["kind"] = "via"
                 e["helper"] = nid()
-                e["ctxs"] = rng.sample(range(nctx), rng.choice([1, 1, 2]))
+                e["ctxs"] = related_pair() if rng.random() < 0.35 else [rng.randrange(nctx)]
             e["cid"] = nid()
             entries.append(e)
             if parent < 0 and name < npoints and e["kind"] != "point":
                 wired_names.add(name)
         classes.append({"parent": parent, "entries": entries})
-    return {"nctx": nctx, "serialized": rng.random() < 0.1, "npoints": npoints, "classes": classes}
+    return {"nctx": nctx, "serialized": ctx_special == "serialized", "ctx_special": ctx_special, "ctx_parent": ctx_parent,
+            "npoints": npoints, "classes": classes}
 
 
 def gen_outcome(rng, world, style):
@@ -545,6 +588,11 @@ def check_world(chk, report, rng, case, lines, impl, cases, runs_per_ctx):
             chk.case(shape, nontrivial=len(active) == 1 and nimpl >= 2 and bool(world.calls))
             chk.count("max-impls-per-spec:%d" % min(nimpl, 5))
             chk.count("active-contexts:%d" % len(active))
+            cp = case.get("ctx_parent") or []
+            if len(active) == 1 and cp:
+                a = active[0]
+                chk.count("active-context:" + ("derived-from-another-context" if cp[a] >= 0 else
+                                               "parent-of-a-derived-context" if a in cp else "no-relatives"))
             chk.count("invoked:%d" % min(len(set(world.calls)), 6))
             chk.count("evaluation:" + ("interleaved(before-later-classes)" if what == "prefix-run" else
                                        "after-whole-history" + ("+earlier-evaluations" if evals_at else "")))
@@ -595,9 +643,22 @@ def check_world(chk, report, rng, case, lines, impl, cases, runs_per_ctx):
         depth = max([len(A.chain(ci)) for ci in range(n)] or [0]) + 1
         chk.count("history:class-hierarchy-depth-%d" % min(depth, 5))
         chk.count("history:" + ("with-redeclared-points" if any(len(f["points"]) > 1 for f in A.families.values()) else "points-in-root-only"))
+        cp = case.get("ctx_parent") or []
+
+        def cdepth(i):
+            return 1 if cp[i] < 0 else 1 + cdepth(cp[i])
+        chk.count("history:context-class-hierarchy-depth-%d" % max([cdepth(i) for i in range(len(cp))] or [1]))
+        if case.get("ctx_special"):
+            chk.count("history:contexts-" + case["ctx_special"])
         for cd in case["classes"]:
             chk.count("class:" + ("extends-root" if cd["parent"] < 0 else "extends-earlier-class"))
             for e in cd["entries"]:
+                if cp and any(cp[a] == b_ or cp[b_] == a for a in e["ctxs"] for b_ in e["ctxs"] if a != b_):
+                    chk.count("impl-contexts:list-mixing-a-context-and-one-derived-from-it")
+                elif cp and any(cp[a] >= 0 for a in e["ctxs"]):
+                    chk.count("impl-contexts:derived-context")
+                elif cp and any(a in cp for a in e["ctxs"]):
+                    chk.count("impl-contexts:parent-of-a-derived-context")
                 chk.count("impl:" + e["kind"] + ("" if e["name"] < case["npoints"] else "(not-a-root-point)"))
     return world
 
@@ -779,6 +840,9 @@ def run(chk):
                 "(chains of up to 4 re-declarations, gaps in the chain, new top-level points in subclasses) and implementations are "
                 "attached at different levels in both registration orders, for the same and for different contexts; the parents "
                 "chain handed to the model is read off the real cls.__mro__; the value is checked at EVERY level's registry point; "
+                "execution contexts form a CLASS HIERARCHY in 55% of the histories (contexts derived from other contexts: two- and "
+                "three-level chains, siblings, the shipped HostContext/JBossContext(HostContext) pair, ExecutionContext itself as a "
+                "key; implementations for a parent, for a derived one, for lists mixing both; every context active in turn); "
                 "1-4 root registry points plus a non-point attribute, implementations bound to fresh ExecutionContext "
                 "subclasses (single context, [ctxA, ctxB] group, through a helper datasource; rarely context-free or depending on "
                 "another registry point = the two known findings); 85% of the histories with >= 2 classes have 1-3 evaluations "
@@ -790,6 +854,12 @@ def run(chk):
                 "non-trivial = one active context, a spec with >= 2 wired implementations, something invoked; "
                 "distinct = history shape x active context x outcome multiset x invocation log")
     chk.assumptions = [
+        "rule for context class hierarchies, read off the unchanged code: the active context is the broker key ctx.__class__ "
+        "(collect.py:249, hydration.py:70, __init__.py:148); a context derived from another context is a key of its own, anything "
+        "issubclass of ExecutionContext at any depth (ExecutionContext itself included) counts as a context for the handler tables "
+        "(spec_factory.py:587-595), and an implementation declared for the parent context is NOT declared for the derived one: it "
+        "requires the parent's key, which is absent.  The model's contexts are therefore opaque keys with no parent relation; "
+        "the generated contexts carry one (case['ctx_parent']) only on the implementation side",
         "'declared for context c' in the oracle = the implementation's requirements can be met when c is the only context supplied "
         "(from the generated shape); in the model = the contexts _get_ctx_dependencies finds (handed over by the generator's own tree walk)",
         "hierarchies (registry points re-declared in intermediate classes): a spec = the top-level point plus its "
